@@ -127,7 +127,9 @@ class LoopProg:
         return is_call(e, name="get_scheduling_loop") and not e.args and not e.keywords
 
     def key(self, e, env):
-        """loop.task_key(task)"""
+        """loop.task_key(task), or a local that was assigned it"""
+        if isinstance(e, ast.Name) and e.id in env.get("keyfns", {}):
+            return env["keyfns"][e.id]
         if is_call(e, attr="task_key") and self.is_loop(e.func.value, env) and len(e.args) == 1 \
                 and isinstance(e.args[0], ast.Name) and e.args[0].id in env["keys"]:
             return env["keys"][e.args[0].id]
@@ -191,6 +193,17 @@ class LoopProg:
                 self.used_cb = True
                 env["hs"][name] = "h"
                 return self._opt_step(self.ops["insert"](env["q"], "h"), rest, env, ind)
+            if isinstance(v, ast.Constant) and isinstance(v.value, int) and not isinstance(v.value, bool) and v.value >= 0:
+                env["nats"][name] = str(v.value)          # a named position constant
+                return self.block(rest, env, ind)
+            if isinstance(v, ast.Name) and v.id in env["loops"]:
+                env["loops"].add(name)                    # alias of the scheduling loop
+                return self.block(rest, env, ind)
+            if is_call(v, attr="task_key"):
+                # key = loop.task_key(task): a hoisted local naming the key function
+                env["keyfns"] = dict(env.get("keyfns", {}))
+                env["keyfns"][name] = self.key(v, env)
+                return self.block(rest, env, ind)
             raise Unsupported(f"assignment {ast.dump(v)[:70]}")
         if isinstance(s, ast.If):
             t = s.test
@@ -198,15 +211,25 @@ class LoopProg:
             if isinstance(t, ast.Compare) and dotted(t.left) == "sys.version_info" and len(t.ops) == 1 \
                     and isinstance(t.ops[0], ast.GtE):
                 return self.block(s.body + rest, env, ind)
-            if isinstance(t, ast.UnaryOp) and isinstance(t.op, ast.Not) and isinstance(t.operand, ast.Name) \
-                    and t.operand.id in env["hopt"] and not s.orelse:
-                name = t.operand.id
+            # truth / None tests of the Optional handle a queue_find returned:
+            #   `not h`, `h is None` (body = the None case)  |  `h`, `h is not None` (body = the handle case)
+            hname, body_is_none = None, None
+            if isinstance(t, ast.UnaryOp) and isinstance(t.op, ast.Not) and isinstance(t.operand, ast.Name):
+                hname, body_is_none = t.operand.id, True
+            elif isinstance(t, ast.Name):
+                hname, body_is_none = t.id, False
+            elif isinstance(t, ast.Compare) and len(t.ops) == 1 and isinstance(t.ops[0], (ast.Is, ast.IsNot)) \
+                    and isinstance(t.left, ast.Name) and is_none(t.comparators[0]):
+                hname, body_is_none = t.left.id, isinstance(t.ops[0], ast.Is)
+            if hname is not None and hname in env["hopt"]:
+                name = hname
                 hv = self.fresh("h")
-                none_branch = self.block(s.body + ([] if exits(s.body) else rest), env, ind + "  ")
+                nb, sb = (s.body, s.orelse) if body_is_none else (s.orelse, s.body)
+                none_branch = self.block(nb + ([] if exits(nb) else rest), env, ind + "  ")
                 env2 = {k: (dict(v) if isinstance(v, dict) else v) for k, v in env.items()}
                 env2["hs"][name] = hv
                 del env2["hopt"][name]
-                some_branch = self.block(rest, env2, ind + "  ")
+                some_branch = self.block(sb + ([] if exits(sb) else rest), env2, ind + "  ")
                 return (f"{ind}match {env['hopt'][name]} with\n{ind}| none =>\n{none_branch}\n"
                         f"{ind}| some {hv} =>\n{some_branch}")
             if isinstance(t, ast.Compare) and len(t.ops) == 1 and isinstance(t.ops[0], (ast.Is, ast.IsNot)) \
